@@ -141,6 +141,24 @@ pub open spec fn join_announce_step(fin: VolatileState, me: String, src: Seq<cha
         before: Seq<(int, Seq<char>)>, after: Seq<(int, Seq<char>)>) -> bool {
     if joined { others_get(before, after, fin, fin.channels@[sk(chans[k])].users@.dom(), me, join_line(src, chans[k]@)) } else { after == before }
 }
+// the four quantified facts of the effect loop as named predicates (the step proof asserts them by name: robust against solver noise)
+pub open spec fn untouched_at(now: Map<String, Channel>, o: VolatileState, c: String) -> bool {
+    (now.contains_key(c) <==> o.channels@.contains_key(c)) && (o.channels@.contains_key(c) ==> now[c] == o.channels@[c])
+}
+pub open spec fn touched_at(now: Map<String, Channel>, o: VolatileState, me: String, c: String) -> bool {
+    now.contains_key(c) && (if o.channels@.contains_key(c) { add_user_post(o.channels@[c], now[c], me) } else { fresh_channel(now[c], me) }) && chan_wf(now[c])
+}
+pub open spec fn join_untouched(now: Map<String, Channel>, o: VolatileState, mj: Option<usize>, me: String, src: Seq<char>, chans: Seq<&str>, keys: Option<Vec<&str>>, upto: int) -> bool {
+    forall|c: String| #![trigger untouched_at(now, o, c)] #![trigger now.contains_key(c)] !admitted(o, mj, me, src, chans, keys, upto, c) ==> untouched_at(now, o, c)
+}
+pub open spec fn join_touched(now: Map<String, Channel>, o: VolatileState, mj: Option<usize>, me: String, src: Seq<char>, chans: Seq<&str>, keys: Option<Vec<&str>>, upto: int) -> bool {
+    forall|c: String| #![trigger touched_at(now, o, me, c)] #![trigger now.contains_key(c)] admitted(o, mj, me, src, chans, keys, upto, c) ==> touched_at(now, o, me, c)
+}
+pub open spec fn join_user_chans(now: User, u0: User, o: VolatileState, mj: Option<usize>, me: String, src: Seq<char>, chans: Seq<&str>, keys: Option<Vec<&str>>, upto: int) -> bool {
+    &&& forall|c: String| #[trigger] now.channels@.contains(c) <==> (u0.channels@.contains(c) || admitted(o, mj, me, src, chans, keys, upto, c))
+    &&& forall|c: String| #[trigger] now.invited_to@.contains(c) <==> (u0.invited_to@.contains(c) && !admitted(o, mj, me, src, chans, keys, upto, c))
+}
+
 pub open spec fn join_announced(o: VolatileState, fin: VolatileState, mj: Option<usize>, me: String, src: Seq<char>, chans: Seq<&str>, keys: Option<Vec<&str>>, n: int, logs: Seq<Seq<(int, Seq<char>)>>) -> bool {
     &&& logs.len() == n + 1
     &&& forall|k: int| 0 <= k < n ==> #[trigger] join_announce_step(fin, me, src, chans, jdec(o, mj, me, src, chans, keys, k), k, logs[k], logs[k + 1])
@@ -225,13 +243,9 @@ impl MainState {
                     it2.seq().len() == chans.len(),
                     forall|k: int| 0 <= k < it2.seq().len() ==> it2.seq()[k] == (&jc[k], &chans[k]),
                     user_same_for_join(*user, u0), user.last_activity == u0.last_activity,
-                    forall|c: String| #[trigger] user.channels@.contains(c) <==> (u0.channels@.contains(c) || admitted(o, mj, me, src, chans, keys_opt, it2.index@ as int, c)), // @prop C07,C04
-                    forall|c: String| #[trigger] user.invited_to@.contains(c) <==> (u0.invited_to@.contains(c) && !admitted(o, mj, me, src, chans, keys_opt, it2.index@ as int, c)), // @prop C07
-                    forall|c: String| !admitted(o, mj, me, src, chans, keys_opt, it2.index@ as int, c) ==>
-                        ((#[trigger] state.channels@.contains_key(c)) <==> o.channels@.contains_key(c)) && (o.channels@.contains_key(c) ==> state.channels@[c] == o.channels@[c]),
-                    forall|c: String| admitted(o, mj, me, src, chans, keys_opt, it2.index@ as int, c) ==> (#[trigger] state.channels@.contains_key(c))
-                        && (if o.channels@.contains_key(c) { add_user_post(o.channels@[c], state.channels@[c], me) } else { fresh_channel(state.channels@[c], me) })
-                        && chan_wf(state.channels@[c]),
+                    join_user_chans(*user, u0, o, mj, me, src, chans, keys_opt, it2.index@ as int), // @prop C07,C04
+                    join_untouched(state.channels@, o, mj, me, src, chans, keys_opt, it2.index@ as int), // @prop C07
+                    join_touched(state.channels@, o, mj, me, src, chans, keys_opt, it2.index@ as int), // @prop C07,C16
 //@after ~for \(\(join, create\), chname_str\) in joined_created\.iter\(\)\.zip\(channels\.iter\(\)\)
                 let ghost k = it2.index@ as int;
                 let ghost pre_user = *user;
@@ -297,6 +311,16 @@ impl MainState {
                         assert(pre_ch.contains_key(c) <==> o.channels@.contains_key(c));
                         if c == ck { assert(!*join); }
                     }
+                    let now = state.channels@;
+                    assert forall|c: String| !admitted(o, mj, me, src, chans, keys_opt, k + 1, c) implies #[trigger] untouched_at(now, o, c) by { // @prop C07
+                        assert(state.channels@.contains_key(c) <==> o.channels@.contains_key(c));
+                    }
+                    assert forall|c: String| admitted(o, mj, me, src, chans, keys_opt, k + 1, c) implies #[trigger] touched_at(now, o, me, c) by { // @prop C07,C16
+                        assert(state.channels@.contains_key(c));
+                    }
+                    assert(join_untouched(now, o, mj, me, src, chans, keys_opt, k + 1)); // @prop C07
+                    assert(join_touched(now, o, mj, me, src, chans, keys_opt, k + 1)); // @prop C07,C16
+                    assert(join_user_chans(*user, u0, o, mj, me, src, chans, keys_opt, k + 1)); // @prop C07,C04
                 }
 //@before ~// sending messages
         proof {
